@@ -147,6 +147,15 @@ func checkLegal(c *Case, r *mon.Rec, fr specref.Framing, q specref.Req, qty int)
 		if pb := v.(packet.Request).Bytes(); !bytes.Equal(pb, wire) {
 			delete(a, "qty")
 			r.Violate(c, "reencode-differs", a, fmt.Sprintf("% x -> % x", head(wire), head(pb)))
+			continue
+		}
+		// the receiver reuses its read buffer for the next frame: the decoded request must still equal the original
+		for i := range in {
+			in[i] ^= 0xA5
+		}
+		if !reflect.DeepEqual(v, any(req)) {
+			delete(a, "qty")
+			r.Violate(c, "decoded-request-aliases-input", a, fmt.Sprintf("after the input buffer was overwritten the decoded request reads %+v, original %+v", v, req))
 		}
 	}
 }
